@@ -6,16 +6,20 @@ package main
 // a post/invariant clause tagged with other properties only is left to them.
 
 type propSpec struct {
-	ID       string
-	Level    string // evidence level
-	Funcs    []string
-	Lemmas   []string // lemma name prefixes
-	Extras   []string // names of extra engines: "frame:write", "frame:read-selector-type", ...
-	Trusted  []string // assumption ids this property leans on
-	Rule     string
-	NoBattery bool // no executable oracle to replay against
-	BatteryIsCheck bool // the bounded run is (part of) the decision itself (exploration level)
-	DistinctKey string // battery stat that counts distinct non-trivial cases
+	ID             string
+	Level          string // evidence level
+	Funcs          []string
+	Lemmas         []string // lemma name prefixes
+	Extras         []string // names of extra engines: "frame:write", "frame:read-selector-type", ...
+	Trusted        []string // assumption ids this property leans on
+	Rule           string
+	NoBattery      bool   // no executable oracle to replay against
+	BatteryIsCheck bool   // the bounded run is (part of) the decision itself (exploration level)
+	DistinctKey    string // battery stat that counts distinct non-trivial cases
+	// SafetyClosure: entry points whose whole reachable repo code is encoded for
+	// this property, contract or not - a function that appears in the call graph
+	// tomorrow is swept for run-time panics without anybody listing it
+	SafetyClosure []string
 }
 
 var evalChain = []string{
@@ -77,7 +81,8 @@ func init() {
 		"grammar.parser.parseExpr", "grammar.parser.parseRule", "grammar.parser.parseActionExpr", "grammar.parser.parseAndCodeExpr", "grammar.parser.parseAndExpr", "grammar.parser.parseAnyMatcher",
 		"grammar.parser.parseCharClassMatcher", "grammar.parser.parseChoiceExpr", "grammar.parser.parseLabeledExpr", "grammar.parser.parseLitMatcher", "grammar.parser.parseNotCodeExpr", "grammar.parser.parseNotExpr",
 		"grammar.parser.parseOneOrMoreExpr", "grammar.parser.parseRuleRefExpr", "grammar.parser.parseSeqExpr", "grammar.parser.parseZeroOrMoreExpr", "grammar.parser.parseZeroOrOneExpr"},
-		Extras: []string{"table:typing"}, Trusted: trust("A-ENGINE", "A-ACYCLIC", "A-STACK", "A-REGEXP")})
+		SafetyClosure: []string{"bexpr.CreateEvaluator", "bexpr.CreateFilter"},
+		Extras:        []string{"table:typing"}, Trusted: trust("A-ENGINE", "A-ACYCLIC", "A-STACK", "A-REGEXP")})
 	add(&propSpec{ID: "C11", Level: "proof", Funcs: []string{"grammar.parser.parseExpr", "grammar.parser.parseRule", "grammar.parser.parseActionExpr", "grammar.parser.parseAndCodeExpr",
 		"grammar.parser.parseAndExpr", "grammar.parser.parseAnyMatcher", "grammar.parser.parseCharClassMatcher", "grammar.parser.parseChoiceExpr", "grammar.parser.parseLabeledExpr",
 		"grammar.parser.parseLitMatcher", "grammar.parser.parseNotCodeExpr", "grammar.parser.parseNotExpr", "grammar.parser.parseOneOrMoreExpr", "grammar.parser.parseRecoveryExpr",
@@ -87,8 +92,10 @@ func init() {
 		Extras: []string{"frame:budget-fields"}, Trusted: trust("A-ARITH-1", "A-ENGINE", "A-STACK")})
 	add(&propSpec{ID: "C19", Level: "proof", Funcs: []string{"grammar.UnaryExpression.ExpressionDump", "grammar.BinaryExpression.ExpressionDump", "grammar.MatchExpression.ExpressionDump",
 		"grammar.CollectionExpression.ExpressionDump", "grammar.Selector.String", "grammar.UnaryOperator.String", "grammar.BinaryOperator.String", "grammar.MatchOperator.String",
-		"grammar.CollectionNameBinding.String"}, Extras: []string{"frame:write:grammar.UnaryExpression.ExpressionDump,grammar.BinaryExpression.ExpressionDump,grammar.MatchExpression.ExpressionDump,grammar.CollectionExpression.ExpressionDump"},
-		Trusted: trust("A-FMT", "A-STRINGS", "A-ARITH-2", "A-STACK", "A-ENGINE")})
+		"grammar.CollectionNameBinding.String"},
+		SafetyClosure: []string{"grammar.UnaryExpression.ExpressionDump", "grammar.BinaryExpression.ExpressionDump", "grammar.MatchExpression.ExpressionDump", "grammar.CollectionExpression.ExpressionDump"},
+		Extras:        []string{"frame:write:grammar.UnaryExpression.ExpressionDump,grammar.BinaryExpression.ExpressionDump,grammar.MatchExpression.ExpressionDump,grammar.CollectionExpression.ExpressionDump"},
+		Trusted:       trust("A-FMT", "A-STRINGS", "A-ARITH-2", "A-STACK", "A-ENGINE")})
 	add(&propSpec{ID: "C15", Level: "exploration", BatteryIsCheck: true, DistinctKey: "accepted_distinct", Funcs: append(append([]string(nil), actionFuncs...), engineFuncs...),
 		Rule:    "every sequence of <= 2 tokens over a 46-token alphabet (keywords, keywords as identifier prefixes, operators, punctuation, numbers incl. malformed, quoted/backtick/pointer/unterminated/bad-escape strings, an invalid UTF-8 byte) and <= 3 tokens over a 20-token core (thorough: <= 3 and <= 4), each with every assignment of {\"\", \" \"} to the gaps, plus ~110 complete statements; grammar.Parse is compared with an independent hand-written PEG recognizer/AST builder (accept/reject and deep equality of the tree). distinct_nontrivial = distinct inputs accepted by both",
 		Trusted: []string{"A-GEN", "A-ENGINE", "the reference parser /verif/replay/zz_bxv_refparse_test.go is the oracle"}})
@@ -109,6 +116,6 @@ func init() {
 		Extras:  []string{"frame:write:bexpr.Evaluator.Evaluate,bexpr.Filter.Execute,bexpr.Evaluator.Expression"},
 		Trusted: trust("A-PS", "A-HOOK", "A-EXT-PURE", "A-REGEXP")})
 	add(&propSpec{ID: "C17", Level: "proof", Funcs: []string{"bexpr.Filter.Execute"}, Trusted: trust("A-PS")})
-	add(&propSpec{ID: "C09", Level: "proof", Funcs: evalChain,
+	add(&propSpec{ID: "C09", Level: "proof", Funcs: evalChain, SafetyClosure: []string{"bexpr.Evaluator.Evaluate", "bexpr.Filter.Execute"},
 		Trusted: trust("A-JSON", "A-REGEXP", "A-STRINGS", "A-PS", "A-HOOK", "A-SORT", "A-STACK")})
 }
